@@ -201,6 +201,33 @@ theorem callReceive_refused (c : Nat) (hp : (s.calls c).pc = .marshalled) (hcl :
   have hab := ((reach_lk sk hr).early c (Or.inr hp)).1
   simp [step, Bc.step, hc, hbc, hlk, hp, hab, hcl, hv.wakes.refuses]
 
+/-- on an open table `Receive` succeeds — whatever the state of the call's context (source fact
+    `bcReceiveErrorsOnlyClosed`, in `Bc.Wakes`): the call is registered, an entry for its id exists, and
+    nothing of the fatal-error machinery is touched -/
+theorem callReceive_registers (c : Nat) (hp : (s.calls c).pc = .marshalled) (hcl : s.bc.closed = false) :
+    ∃ s', step sk s (.callReceive c) = some s' ∧ (s'.calls c).pc = .registered ∧
+      (s'.bc.table c).isSome = true ∧ s'.bc.closed = false ∧
+      s'.setters = s.setters ∧ s'.fatalLog = s.fatalLog ∧ s'.slot = s.slot ∧ s'.link = s.link := by
+  obtain ⟨hc, hbc, hlk⟩ := alive sk hv hr
+  have hab := ((reach_lk sk hr).early c (Or.inr hp)).1
+  have hoc := hv.wakes.onlyClosed
+  cases ht : s.bc.table c <;> simp [step, Bc.step, hc, hbc, hlk, hp, hab, hcl, hoc, ht, upd]
+
+/-- the only failure of the stub's `Receive` step is the closed table -/
+theorem callReceive_fails_closed (c : Nat) {s' : State} (hs : step sk s (.callReceive c) = some s')
+    (hf : (s'.calls c).pc ≠ .registered) : s.bc.closed = true ∧ (s'.calls c).pc = .panicking eClosed := by
+  have hp : (s.calls c).pc = .marshalled := by
+    simp only [step] at hs; split at hs
+    · rename_i h; exact h.2
+    · simp at hs
+  cases hcl : s.bc.closed with
+  | true =>
+    rw [callReceive_refused sk hv hr c hp hcl] at hs
+    simp at hs; subst hs; simp
+  | false =>
+    obtain ⟨s1, h1, h2, _⟩ := callReceive_registers sk hv hr c hp hcl
+    rw [h1] at hs; simp at hs; subst hs; exact absurd h2 hf
+
 end
 
 end Panrpc.Ep
